@@ -162,12 +162,11 @@ theorem renF_keeps (ren : String → String) (p : FieldO × List (Option ArgO)) 
 example : closedB h0 s0 = true ∧ wfB h0 s0 = true ∧ (transform Cfg.fixed (2 + 6) [.camel (fun n => n ++ "X")] s0 h0).isSome = true := by decide
 
 /-- the variant in the working tree -/
-theorem current_camel_case_exact (hd : PyGql.Generated.HeapCfg.currentCfg.deepClone = true)
-    (hk : PyGql.Generated.HeapCfg.currentCfg.keepAllTypes = true) (hacc : PyGql.Generated.HeapCfg.currentCfg.accumulateBusted = true)
+theorem current_camel_case_exact
     (fuel : Nat) (ren : String → String) (s : Schema) (h h' : Heap) (s' : Schema) (hc : closedB h s = true) (hw : wfB h s = true)
     (e : transform PyGql.Generated.HeapCfg.currentCfg (2 + fuel) [.camel ren] s h = some (h', s')) :
     (∀ n, n ∈ names s → n ∈ names s') ∧
     ∀ e', e' ∈ s'.types → ∃ e0, e0 ∈ s.types ∧ e0.1 = e'.1 ∧ typeV h' e'.2 = (typeV h e0.2).map (renV ren) :=
-  camel_case_exact _ hd hk hacc fuel ren s h h' s' hc hw e
+  camel_case_exact _ cur_deepClone cur_keepAllTypes cur_accumulateBusted fuel ren s h h' s' hc hw e
 
 end PyGql.Props.C14
